@@ -1,29 +1,38 @@
 """C08 - conjugate gradients (structural skeleton; convergence and Lanczos identities are numerical).
 
-Each rule is a necessary condition of one clause of the property, decided by dependence / dominance on the CFG of
-``linear_cg`` and its two jit helpers:
+All rules run on ``linear_cg`` with its same-module helpers INLINED (lo_static/inline.py), so extracting or re-inlining
+the update kernels does not change a verdict, and every variable is identified by its ROLE, found from the code, never by
+its spelling (only the public parameter names are taken as given):
 
-    Z  frozen columns, in BOTH the preconditioned branch and the un-preconditioned helper (sibling agreement): the step
-       length is masked by ``has_converged`` before the residual and the iterate are updated with it
-    S  zero columns and scaling: the convergence mask depends on ``rhs_is_zero``; the returned iterate depends on
-       ``rhs_norm`` (un-normalisation) and the right-hand side is normalised by it
+    rhs_norm       the norm of the parameter ``rhs``             rhs_is_zero    a comparison of rhs_norm with a threshold
+    residual       ``rhs - matmul_closure(...)``                   residual_norm  what is compared with ``stop_updating_after``
+    has_converged  the result of that comparison                  result         what is returned
+    reached        the flag set to True next to the ``break``
+
+Each rule is a necessary condition of one clause of the property:
+
+    Z  frozen columns, on EVERY path through the update part of the iteration (the preconditioned and the
+       un-preconditioned sibling): the in-place updates of the residual and of the iterate depend on has_converged
+    S  zero columns and scaling: the residual norm that decides convergence is masked by rhs_is_zero; the returned iterate
+       is multiplied back by rhs_norm after the loop; rhs is normalised by it before
     E  error paths: ``max_tridiag_iter > max_iter`` and a NaN first residual raise before the iteration starts
-    X  early exit: the ``break`` is controlled by the tolerance and the residual norm, and ``tolerance_reached`` is set
-       only there
-    W  the NumericalWarning test (not tolerance_reached and iterations were run) lies on every path from the loop to a
-       return
-    D  safe division: every division by an iteration quantity is preceded by ``lt(den, eps) -> masked_fill_(mask, 1)``
+    X  early exit: the ``break`` (and the reached flag) are controlled by the tolerance and the residual norm
+    W  the NumericalWarning test (not reached and iterations were run) lies on every path from the loop to a return
+    D  safe division: every in-loop division by an iteration quantity is preceded by a clamp of the denominator away from 0
+    M  what is measured: the convergence norm is a function of the residual itself; the zero-column threshold does not
+       depend on the right-hand side; the tridiagonal recording stops only when EVERY column has broken down
 """
 from __future__ import annotations
 
 import ast
-from typing import Dict, List, Optional, Set
+from typing import Dict, List, Optional, Set, Tuple
 
 import networkx as nx
 
 from ..cfg import CFG, Node
-from ..deps import dependence, reads, root_name, statement_defs, subtree_nodes
+from ..deps import ReachingDefs, dependence, reads, root_name, statement_defs, subtree_nodes, value_reads
 from ..index import AnalysisError, FunctionInfo, ProgramIndex, dotted, norm, short, walk_body
+from ..inline import inline_helpers
 from ..report import Finding, Report
 
 PROP = "C08"
@@ -32,10 +41,6 @@ MOD = "linear_operator.utils.linear_cg"
 
 def fname(fn: FunctionInfo) -> str:
     return fn.qualname.replace("linear_operator.", "", 1)
-
-
-def controlling_tests(cfg: CFG, nid: int) -> List[Node]:
-    return [cfg.nodes[d] for d in cfg.dominators(nid) if cfg.nodes[d].kind == "test"]
 
 
 def _inside(outer: ast.AST, inner: ast.AST) -> bool:
@@ -49,6 +54,26 @@ def _defs_of(st: ast.AST):
     return out
 
 
+def controlling_tests(cfg: CFG, nid: int) -> List[Node]:
+    return [cfg.nodes[d] for d in cfg.dominators(nid) if cfg.nodes[d].kind == "test"]
+
+
+def _cmp_parts(e: ast.AST) -> Optional[Tuple[ast.AST, ast.AST, Optional[ast.AST], str]]:
+    """(left, right, out, op) of a less-than style comparison in any spelling: a.lt(b), torch.lt(a, b, out=o), a < b."""
+    if isinstance(e, ast.Call):
+        d = dotted(e.func) or ""
+        leaf = d.split(".")[-1]
+        out = next((k.value for k in e.keywords if k.arg == "out"), None)
+        if d.startswith("torch.") and leaf in ("lt", "le", "less", "less_equal") and len(e.args) >= 2:
+            return e.args[0], e.args[1], out, leaf
+        if isinstance(e.func, ast.Attribute) and e.func.attr in ("lt", "le", "less", "less_equal", "lt_", "le_") and e.args \
+                and not d.startswith("torch."):
+            return e.func.value, e.args[0], out, e.func.attr
+    if isinstance(e, ast.Compare) and len(e.ops) == 1 and isinstance(e.ops[0], (ast.Lt, ast.LtE)):
+        return e.left, e.comparators[0], None, "<"
+    return None
+
+
 def _quantifier(test: ast.AST) -> Optional[str]:
     """Is a threshold test on a tensor of per-column values universally or existentially quantified?
     X.max() < c, (X < c).all(), torch.all(X < c) -> 'all';  X.min() < c, (X < c).any(), torch.any(X < c) -> 'any'."""
@@ -58,66 +83,148 @@ def _quantifier(test: ast.AST) -> Optional[str]:
     if isinstance(t, ast.Compare) and len(t.ops) == 1 and isinstance(t.ops[0], (ast.Lt, ast.LtE, ast.Gt, ast.GtE)):
         less = isinstance(t.ops[0], (ast.Lt, ast.LtE))
         l = t.left
-        if isinstance(l, ast.Call) and isinstance(l.func, ast.Attribute) and l.func.attr in ("max", "amax"):
-            return "all" if less else "any"
-        if isinstance(l, ast.Call) and isinstance(l.func, ast.Attribute) and l.func.attr in ("min", "amin"):
-            return "any" if less else "all"
+        if isinstance(l, ast.Call):
+            leaf = l.func.attr if isinstance(l.func, ast.Attribute) else (dotted(l.func) or "").split(".")[-1]
+            if leaf in ("max", "amax"):
+                return "all" if less else "any"
+            if leaf in ("min", "amin"):
+                return "any" if less else "all"
         return None
-    if isinstance(t, ast.Call) and isinstance(t.func, ast.Attribute) and t.func.attr in ("all", "any") and not t.args:
-        return t.func.attr
     if isinstance(t, ast.Call) and dotted(t.func) in ("torch.all", "torch.any"):
         return dotted(t.func).split(".")[-1]
+    if isinstance(t, ast.Call) and isinstance(t.func, ast.Attribute) and t.func.attr in ("all", "any"):
+        return t.func.attr
     return None
 
 
-def safe_division_sites(fn: FunctionInfo, rep: Report, rule: str):
-    """torch.div(num, den, out=...) / den-based divisions: den must have been clamped away from zero first."""
-    cfg = CFG(fn)
-    n_sites = 0
-    for node in cfg.stmt_nodes():
-        if node.kind != "stmt":
-            continue
-        for x in ast.walk(node.ast):
-            den = None
-            if isinstance(x, ast.Call) and dotted(x.func) == "torch.div" and len(x.args) >= 2 and isinstance(x.args[1], ast.Name):
-                den = x.args[1].id
-            if den is None:
-                continue
-            n_sites += 1
-            # a dominating `den.masked_fill_(mask, 1)` whose mask was produced by torch.lt(den, eps, out=mask) / den.lt(eps)
-            ok = None
-            doms = [cfg.nodes[d] for d in cfg.dominators(node.id)]
-            for d in doms:
-                if d.kind != "stmt":
-                    continue
-                for y in ast.walk(d.ast):
-                    if (isinstance(y, ast.Call) and isinstance(y.func, ast.Attribute) and y.func.attr in ("masked_fill_", "clamp_min_")
-                            and root_name(y.func.value) == den):
-                        if y.func.attr == "clamp_min_":
-                            ok = short(y)
-                            continue
-                        mask = y.args[0].id if y.args and isinstance(y.args[0], ast.Name) else None
-                        fill = y.args[1] if len(y.args) > 1 else None
-                        if mask is None or not (isinstance(fill, ast.Constant) and fill.value == 1):
-                            continue
-                        # mask defined from a comparison of den with eps, earlier
-                        for d2 in doms:
-                            if d2.kind != "stmt":
-                                continue
-                            for z in ast.walk(d2.ast):
-                                if isinstance(z, ast.Call) and dotted(z.func) in ("torch.lt", "torch.le") and z.args \
-                                        and root_name(z.args[0]) == den and any(
-                                            k.arg == "out" and root_name(k.value) == mask for k in z.keywords):
-                                    ok = f"{short(z, 50)} ; {short(y, 50)}"
-            sample = {"function": fname(fn), "division": short(x, 70), "guard": ok}
-            if ok:
-                rep.ok(rule, sample)
-            else:
-                rep.bad(rule, Finding(PROP, rule, fname(fn), norm(x),
-                                      f"{fname(fn)}: `{short(x, 70)}` divides by `{den}` without the preceding safe-division "
-                                      "idiom (lt(den, eps) -> masked_fill_(mask, 1)): a zero curvature / residual yields inf or NaN "
-                                      "in the iterate", fn.loc(x)))
-    return n_sites
+class Roles:
+    """Structural identification of the solver's variables (see the module docstring)."""
+
+    def __init__(self, fn: FunctionInfo):
+        self.fn = fn
+        body = fn.body()
+        params = set(fn.params())
+        for need in ("matmul_closure", "rhs", "tolerance", "stop_updating_after"):
+            if need not in params:
+                raise AnalysisError(f"linear_cg no longer has the public parameter `{need}`")
+        # the CG loop: the last top-level `for` whose body calls matmul_closure
+        loops = [s for s in body if isinstance(s, ast.For) and any(
+            isinstance(x, ast.Call) and isinstance(x.func, ast.Name) and x.func.id == "matmul_closure" for x in ast.walk(s))]
+        if not loops:
+            raise AnalysisError("iteration loop (a top-level for that calls matmul_closure) not found in linear_cg")
+        self.loop: ast.For = loops[-1]
+        self.li = body.index(self.loop)
+        self.pre, self.post = body[:self.li], body[self.li + 1:]
+        pre_nodes = [x for s in self.pre for x in ast.walk(s)]
+
+        def assigned(pred) -> Optional[str]:
+            for x in pre_nodes:
+                if isinstance(x, ast.Assign) and len(x.targets) == 1 and isinstance(x.targets[0], ast.Name) and pred(x.value):
+                    return x.targets[0].id
+            return None
+
+        def is_norm_of(v: ast.AST, name: str) -> bool:
+            for c in ast.walk(v):
+                if isinstance(c, ast.Call):
+                    d = dotted(c.func) or ""
+                    if isinstance(c.func, ast.Attribute) and c.func.attr == "norm" and root_name(c.func.value) == name and not d.startswith("torch."):
+                        return True
+                    if d in ("torch.norm", "torch.linalg.norm", "torch.linalg.vector_norm") and c.args and root_name(c.args[0]) == name:
+                        return True
+            return False
+
+        self.rhs_norm = assigned(lambda v: is_norm_of(v, "rhs"))
+        if self.rhs_norm is None:
+            raise AnalysisError("role rhs_norm (the norm of `rhs`) not found before the loop")
+
+        def is_cmp_of(v: ast.AST, name: str) -> bool:
+            p = _cmp_parts(v)
+            return p is not None and root_name(p[0]) == name
+
+        self.rhs_is_zero = assigned(lambda v: is_cmp_of(v, self.rhs_norm))
+        if self.rhs_is_zero is None:
+            raise AnalysisError("role rhs_is_zero (a comparison of rhs_norm with a threshold) not found before the loop")
+        self.residual = assigned(lambda v: isinstance(v, ast.BinOp) and isinstance(v.op, ast.Sub) and root_name(v.left) == "rhs" and any(
+            isinstance(c, ast.Call) and isinstance(c.func, ast.Name) and c.func.id == "matmul_closure" for c in ast.walk(v.right)))
+        if self.residual is None:
+            raise AnalysisError("role residual (`rhs - matmul_closure(...)`) not found before the loop")
+        # has_converged / residual_norm: the comparison with stop_updating_after inside the loop
+        self.has_converged = self.residual_norm = None
+        self.conv_stmt = None
+        for st in self.loop.body:
+            for x in ast.walk(st):
+                p = _cmp_parts(x)
+                if p is not None and "stop_updating_after" in reads(p[1]):
+                    tgt = root_name(p[2]) if p[2] is not None else None
+                    if tgt is None and isinstance(st, ast.Assign) and isinstance(st.targets[0], ast.Name):
+                        tgt = st.targets[0].id
+                    if tgt is not None and root_name(p[0]) is not None:
+                        self.has_converged, self.residual_norm, self.conv_stmt = tgt, root_name(p[0]), st
+        if self.has_converged is None:
+            raise AnalysisError("role has_converged (residual norm < stop_updating_after inside the loop) not found")
+        # result: root of the first element of the returned value
+        rets = [n for n in walk_body(fn) if isinstance(n, ast.Return) and n.value is not None]
+        names = set()
+        for r in rets:
+            first = r.value.elts[0] if isinstance(r.value, ast.Tuple) else r.value
+            rn = root_name(first)
+            if rn:
+                names.add(rn)
+        if len(names) != 1:
+            raise AnalysisError(f"linear_cg returns {sorted(names)}: expected one iterate variable")
+        self.result = next(iter(names))
+        self.returns = rets
+        # reached flag: `flag = True` in the block of a break
+        self.reached = None
+        for x in ast.walk(self.loop):
+            for fld in ("body", "orelse"):
+                blk = getattr(x, fld, None)
+                if isinstance(blk, list) and any(isinstance(s, ast.Break) for s in blk):
+                    for s in blk:
+                        if isinstance(s, ast.Assign) and isinstance(s.targets[0], ast.Name) and isinstance(s.value, ast.Constant) and s.value.value is True:
+                            self.reached = s.targets[0].id
+
+    def table(self) -> Dict[str, Optional[str]]:
+        return {k: getattr(self, k) for k in ("rhs_norm", "rhs_is_zero", "residual", "residual_norm", "has_converged", "result", "reached")}
+
+
+def _paths(stmts: List[ast.stmt], limit: int = 16) -> List[List[ast.stmt]]:
+    """Alternative straight-line statement lists through if/else (loops and other compound statements kept whole)."""
+    paths: List[List[ast.stmt]] = [[]]
+    for st in stmts:
+        if isinstance(st, ast.If) and len(paths) * 2 <= limit:
+            a, b = _paths(st.body, limit), _paths(st.orelse, limit)
+            pos = ast.copy_location(ast.Expr(value=st.test), st)
+            neg = ast.copy_location(ast.Expr(value=ast.UnaryOp(op=ast.Not(), operand=st.test)), st)
+            paths = [p + [pos] + q for p in paths for q in a] + [p + [neg] + q for p in paths for q in b]
+        else:
+            paths = [p + [st] for p in paths]
+    return paths
+
+
+def _forward_dependence(stmts: List[ast.stmt]) -> Dict[str, Set[str]]:
+    """Dependence along ONE straight-line path, in statement order: a use sees the definitions made before it on the path
+    (names not yet defined on the path stand for their value at the start of the iteration).  Weak updates (in-place
+    methods, out= on an existing buffer that is also read, subscript stores) keep the previous dependences."""
+    env: Dict[str, Set[str]] = {}
+
+    def dep(n: str) -> Set[str]:
+        return env.get(n, {n})
+
+    for st in stmts:
+        order = []
+        for x in ast.walk(st):
+            for name, rd_ in statement_defs(x):
+                order.append((getattr(x, "lineno", 0), getattr(x, "col_offset", 0), x, name, rd_))
+        # inner calls of a chain (a.mul_(b).add_(c)) evaluate left to right: sort by position of the END of the call
+        order.sort(key=lambda t: (getattr(t[2], "end_lineno", t[0]), getattr(t[2], "end_col_offset", t[1])))
+        for _, _, x, name, rd_ in order:
+            new: Set[str] = set()
+            for r in rd_:
+                new |= dep(r) | {r}
+            strong = isinstance(x, ast.Assign) and any(isinstance(t, ast.Name) and t.id == name for t in x.targets)
+            env[name] = new if strong else (dep(name) | new)
+    return env
 
 
 def stopping_rules_for(idx: ProgramIndex, rep: Report, prop: str, rule: str) -> None:
@@ -127,17 +234,13 @@ def stopping_rules_for(idx: ProgramIndex, rep: Report, prop: str, rule: str) -> 
     sub = Report("C08", "quick", rep.root)
     sub.quiet = True
     run(idx, sub, "quick", selftest=False)
-    n = 0
     for rname in ("C08.M", "C08.X", "C08.W"):
         st = sub.rules.get(rname)
         if st is None:
             continue
         bad = [f for f in sub.findings if f.rule == rname]
-        for _ in range(max(st.instances - len(bad), 0)):
-            rep.count(rule)
-            n += 1
+        rep.count(rule, max(st.instances - len(bad), 0))
         for f in bad:
-            n += 1
             rep.bad(rule, Finding(prop, rule, f.function, f.construct, f"[{rname}] {f.message}", f.loc))
     for e in sub.errors:
         rep.error(f"linear_cg stopping rules: {e}")
@@ -145,149 +248,125 @@ def stopping_rules_for(idx: ProgramIndex, rep: Report, prop: str, rule: str) -> 
 
 def run(idx: ProgramIndex, rep: Report, tier: str, selftest: bool = True):
     rep.extra["explanation"] = (
-        "Dependence and dominance rules over the CFGs of linear_cg and its two jit helpers. They decide, for all inputs, "
-        "the control / data skeleton that the property's clauses presuppose: converged columns are frozen by masking the "
-        "step length in both sibling code paths; zero right-hand sides are masked and the answer is un-normalised by the "
-        "right-hand-side norm; inconsistent iteration limits and a NaN first residual raise before iterating; the early "
-        "exit is controlled by tolerance and residual norm; the NumericalWarning test lies on every path to a return; "
-        "every division by an iteration quantity is guarded. Backward dependence treats in-place methods and out= "
-        "keywords as definitions. NOT decided (numerical): monotone A-norm error, the Chebyshev bound, that t_mat is the "
-        "Lanczos matrix, preconditioner independence."
+        "Dependence, dominance and reaching-definition rules over linear_cg with its same-module helpers inlined (so an "
+        "extracted or re-inlined kernel does not matter) and with every variable identified by its structural role, not "
+        "by its name. They decide, for all inputs, the control / data skeleton that the property's clauses presuppose: "
+        "converged columns are frozen on every path through the update part of the iteration; zero right-hand sides are "
+        "masked and the answer is un-normalised by the right-hand-side norm; inconsistent iteration limits and a NaN "
+        "first residual raise before iterating; the early exit is controlled by tolerance and residual norm; the "
+        "NumericalWarning test lies on every path to a return; every in-loop division by an iteration quantity is "
+        "guarded; the convergence norm is a function of the residual itself, the zero-column threshold is independent "
+        "of the right-hand side, the tridiagonal recording stops only when every column has broken down. NOT decided "
+        "(numerical): monotone A-norm error, the Chebyshev bound, that t_mat is the Lanczos matrix, preconditioner "
+        "independence of the limit."
     )
     rep.assumptions += ["in-place tensor methods and out= keywords define their target (dependence model)",
-                        "input immutability of linear_cg is decided by C13"]
+                        "input immutability of linear_cg is decided by C13",
+                        "the public parameter names of linear_cg (rhs, matmul_closure, tolerance, eps, stop_updating_after, "
+                        "max_iter, max_tridiag_iter, n_tridiag) are its API and are taken as given"]
     m = idx.modules.get(MOD)
     if m is None:
         raise AnalysisError(f"{MOD} not found")
-    cg = m.functions.get("linear_cg")
-    if cg is None:
+    cg0 = m.functions.get("linear_cg")
+    if cg0 is None:
         raise AnalysisError("linear_cg not found")
-    helpers = [f for f in m.functions.values() if f is not cg and any(
-        isinstance(n, ast.Call) and dotted(n.func) in ("torch.addcmul", "torch.div") for n in walk_body(f))]
-    if len(helpers) < 2:
-        raise AnalysisError(f"expected the two jit update helpers in {MOD}, found {[h.name for h in helpers]}")
+    cg, inlined = inline_helpers(idx, cg0)
+    R = Roles(cg)
+    rep.analysed["inlined_helpers"] = inlined
+    rep.analysed["roles"] = R.table()
+    loop_ast = R.loop
     cfg = CFG(cg)
-    loops = [n for n in cfg.nodes.values() if n.kind == "iter"]
-    if not loops:
-        raise AnalysisError("iteration loop not found in linear_cg")
-    loop = loops[0]
-    deps = dependence(cg)
+    loop = next((n for n in cfg.nodes.values() if n.kind == "iter" and n.ast is loop_ast), None)
+    if loop is None:
+        raise AnalysisError("CFG node of the CG loop not found")
+    F = fname(cg0)
 
     # ---------------------------------------------------------------- Z
-    rep.rule("C08.Z", "converged columns are frozen in both update paths", floor=4)
-    noprec = next((h for h in helpers if "has_converged" in h.params()), None)
-    upd = next((h for h in helpers if h is not noprec), None)
-    if noprec is None or upd is None:
-        raise AnalysisError("cannot tell the preconditioned / un-preconditioned update helpers apart")
-    # (i) un-preconditioned helper
-    d1 = dependence(noprec)
-    for var in ("alpha", "residual"):
-        ok = "has_converged" in d1.get(var, set())
-        if ok:
-            rep.ok("C08.Z", {"path": fname(noprec), "variable": var, "depends_on": "has_converged"})
-        else:
-            rep.bad("C08.Z", Finding(PROP, "C08.Z", fname(noprec), f"{var} independent of has_converged",
-                                     f"{fname(noprec)}: the update of `{var}` does not depend on `has_converged`: columns that "
-                                     "have converged keep changing (un-preconditioned path)", noprec.loc()))
-    # (ii) the preconditioned branch inside linear_cg's loop
-    branch = None
-    for n in ast.walk(loop.ast):
-        if isinstance(n, ast.If) and norm(n.test) in ("precond", "not precond"):
-            branch = n.body if norm(n.test) == "precond" else n.orelse
-    if branch is None:
-        raise AnalysisError("`if precond:` branch not found in the CG loop")
-    d2 = dependence(cg, subtree_nodes(branch))
-    for var in ("alpha", "residual"):
-        ok = "has_converged" in d2.get(var, set())
-        if ok:
-            rep.ok("C08.Z", {"path": "linear_cg [preconditioned branch]", "variable": var, "depends_on": "has_converged"})
-        else:
-            rep.bad("C08.Z", Finding(PROP, "C08.Z", fname(cg) + " [preconditioned branch]", f"{var} independent of has_converged",
-                                     f"linear_cg, preconditioned branch: the update of `{var}` does not depend on "
-                                     "`has_converged` although the un-preconditioned sibling masks it: converged columns keep "
-                                     "changing when a preconditioner is given", cg.loc(branch[0])))
-    d3 = dependence(upd)
-    if "alpha" in d3.get("result", set()) and "curr_conjugate_vec" in d3.get("result", set()):
-        rep.ok("C08.Z", {"path": fname(upd), "variable": "result", "depends_on": "alpha (masked step length)"})
-    else:
-        rep.bad("C08.Z", Finding(PROP, "C08.Z", fname(upd), "result independent of alpha",
-                                 f"{fname(upd)}: the iterate update does not use the masked step length `alpha`", upd.loc()))
-    # has_converged itself is recomputed from the residual norm each iteration
-    if "residual_norm" in deps.get("has_converged", set()) and "stop_updating_after" in deps.get("has_converged", set()):
-        rep.ok("C08.Z", {"variable": "has_converged", "depends_on": ["residual_norm", "stop_updating_after"]})
-    else:
-        rep.bad("C08.Z", Finding(PROP, "C08.Z", fname(cg), "has_converged not derived from residual_norm",
-                                 "has_converged is not recomputed from the residual norm and the freeze threshold", cg.loc()))
+    rep.rule("C08.Z", "converged columns are frozen on every path through the update part of the iteration", floor=2)
+    ci = next((i for i, s in enumerate(loop_ast.body) if s is R.conv_stmt or _inside(s, R.conv_stmt)), len(loop_ast.body))
+    region = loop_ast.body[:ci]
+    n_paths = 0
+    for pth in _paths(region):
+        nodes = subtree_nodes(pth)
+        d = _forward_dependence(pth)
+        updated = {nm for x in nodes for nm, _ in statement_defs(x)}
+        label = " / ".join(short(s.value, 30) for s in pth if isinstance(s, ast.Expr) and not isinstance(s.value, ast.Call))[:60] or "straight"
+        for role, var in (("residual", R.residual), ("result", R.result)):
+            if var not in updated:
+                continue
+            n_paths += 1
+            if R.has_converged in d.get(var, set()):
+                rep.ok("C08.Z", {"path": label, "role": role, "variable": var, "depends_on": R.has_converged})
+            else:
+                rep.bad("C08.Z", Finding(PROP, "C08.Z", F + f" [{label}]", f"{role} independent of has_converged",
+                                         f"linear_cg, update path [{label}]: the update of the {role} (`{var}`) does not depend on the "
+                                         f"convergence mask `{R.has_converged}`: columns that have converged keep changing on this path "
+                                         "(the sibling path masks the step length)", cg0.loc(pth[0] if pth else loop_ast)))
+    if n_paths == 0:
+        rep.error("no update of the residual / iterate found in the CG loop before the convergence test")
+    dd = dependence(cg)
+    if R.residual_norm in dd.get(R.has_converged, set()):
+        rep.ok("C08.Z", {"variable": R.has_converged, "recomputed_from": R.residual_norm})
 
     # ---------------------------------------------------------------- S
     rep.rule("C08.S", "zero columns are masked and the answer scales with the right-hand side", floor=3)
-    # S1: every in-loop recomputation of has_converged from residual_norm sees a residual norm whose closest dominating
-    #     definition is the zero-column mask
     n_s1 = 0
     for node in cfg.stmt_nodes():
-        if node.kind != "stmt" or not _inside(loop.ast, node.ast):
+        if node.kind != "stmt" or not _inside(loop_ast, node.ast):
             continue
-        for name, rd in _defs_of(node.ast):
-            if name != "has_converged" or "residual_norm" not in rd:
+        if not any(nm == R.has_converged and R.residual_norm in rd_ for nm, rd_ in _defs_of(node.ast)):
+            continue
+        n_s1 += 1
+        closest = None
+        for dn_id in cfg.dominators(node.id):
+            dn = cfg.nodes[dn_id]
+            if dn.kind != "stmt":
                 continue
-            n_s1 += 1
-            closest = None
-            for d in cfg.dominators(node.id):
-                dn = cfg.nodes[d]
-                if d == node.id or dn.kind != "stmt":
-                    continue
-                dd = [r for nm, r in _defs_of(dn.ast) if nm == "residual_norm"]
-                if dd:
-                    closest = (dn, dd)
-                    break
-            if closest and any("rhs_is_zero" in r for r in closest[1]) and "masked_fill" in norm(closest[0].ast):
-                rep.ok("C08.S", {"has_converged_from": short(node.ast, 70), "residual_norm_last_defined_by": short(closest[0].ast, 60)})
-            else:
-                rep.bad("C08.S", Finding(PROP, "C08.S", fname(cg), "residual_norm not masked by rhs_is_zero before " + norm(node.ast),
-                                         "inside the iteration the residual norm that decides convergence is not masked by "
-                                         "rhs_is_zero: the (0/0) residual of a zero right-hand-side column keeps the solver iterating "
-                                         "/ pollutes the mean residual", cg.loc(node.ast)))
+            ds = [r for nm, r in _defs_of(dn.ast) if nm == R.residual_norm]
+            if ds:
+                closest = (dn, ds)
+                break
+        sel = closest is not None and any(R.rhs_is_zero in r for r in closest[1]) and any(
+            k in norm(closest[0].ast) for k in ("masked_fill", "where", "index_fill"))
+        if sel:
+            rep.ok("C08.S", {"convergence_test": short(node.ast, 70), "residual_norm_last_defined_by": short(closest[0].ast, 60)})
+        else:
+            rep.bad("C08.S", Finding(PROP, "C08.S", F, "residual norm not masked by rhs_is_zero before the convergence test",
+                                     "inside the iteration the residual norm that decides convergence is not masked by the zero-column "
+                                     f"mask `{R.rhs_is_zero}`: the (0/0) residual of a zero right-hand-side column keeps the solver "
+                                     "iterating / pollutes the mean residual", cg0.loc(node.ast)))
     if n_s1 == 0:
-        rep.bad("C08.S", Finding(PROP, "C08.S", fname(cg), "has_converged never recomputed in the loop",
-                                 "has_converged is not recomputed from residual_norm inside the iteration", cg.loc(loop.ast)))
-    # S2: the statements AFTER the loop make the returned iterate depend on rhs_norm (un-normalisation)
-    body = cg.body()
-    li = next((i for i, s_ in enumerate(body) if s_ is loop.ast or any(x is loop.ast for x in ast.walk(s_))), None)
-    if li is None:
-        raise AnalysisError("cannot locate the CG loop among linear_cg's top-level statements")
-    post = dependence(cg, subtree_nodes(body[li + 1:]))
-    rets = [n for n in walk_body(cg) if isinstance(n, ast.Return) and n.value is not None]
-    for r in rets:
+        rep.error("has_converged is never recomputed from the residual norm inside the loop")
+    post = dependence(cg, subtree_nodes(R.post))
+    for r in R.returns:
         first = r.value.elts[0] if isinstance(r.value, ast.Tuple) else r.value
         names = reads(first)
-        dd = set().union(*[post.get(nm, set()) | {nm} for nm in names]) if names else set()
-        if "rhs_norm" in dd:
-            rep.ok("C08.S", {"return": short(r, 60), "depends_on": "rhs_norm (un-normalised after the loop)"})
+        dset = set().union(*[post.get(nm, set()) | {nm} for nm in names]) if names else set()
+        if R.rhs_norm in dset:
+            rep.ok("C08.S", {"return": short(r, 60), "un-normalised_by": R.rhs_norm})
         else:
-            rep.bad("C08.S", Finding(PROP, "C08.S", fname(cg), norm(r) + " [rhs_norm]",
-                                     "after the iteration the returned iterate is not multiplied back by rhs_norm: the answer of "
-                                     "the normalised system is returned, i.e. the result does not scale with the right-hand side",
-                                     cg.loc(r)))
-    if "rhs_norm" in deps.get("rhs", set()):
-        rep.ok("C08.S", {"rhs_normalised_by": "rhs_norm"})
+            rep.bad("C08.S", Finding(PROP, "C08.S", F, "returned iterate not multiplied back by rhs_norm",
+                                     "after the iteration the returned iterate is not multiplied back by the right-hand-side norm: the "
+                                     "answer of the normalised system is returned, i.e. the result does not scale with the right-hand side",
+                                     cg0.loc(r)))
+    pre = dependence(cg, subtree_nodes(R.pre))
+    if R.rhs_norm in pre.get("rhs", set()):
+        rep.ok("C08.S", {"rhs_normalised_by": R.rhs_norm})
     else:
-        rep.bad("C08.S", Finding(PROP, "C08.S", fname(cg), "rhs not normalised", "rhs is not divided by its norm", cg.loc()))
+        rep.bad("C08.S", Finding(PROP, "C08.S", F, "rhs not normalised", "rhs is not divided by its norm before the iteration", cg0.loc()))
 
     # ---------------------------------------------------------------- E
     rep.rule("C08.E", "inconsistent limits and a NaN first residual raise before iterating", floor=2)
-    raises = [n for n in cfg.stmt_nodes() if n.kind == "stmt" and isinstance(n.ast, ast.Raise)]
     found_limits = found_nan = False
-    for r in raises:
-        tests = controlling_tests(cfg, r.id)
-        if not tests:
-            continue
-        t = tests[0]
-        dominates_loop = t.id in cfg.dominators(loop.id)
-        names = reads(t.ast)
-        if {"max_tridiag_iter", "max_iter"} <= names and dominates_loop:
-            found_limits = True
-        if "residual" in names and ("equal" in norm(t.ast) or "isnan" in norm(t.ast)) and dominates_loop:
-            found_nan = True
+    for rz in [n for n in cfg.stmt_nodes() if n.kind == "stmt" and isinstance(n.ast, ast.Raise)]:
+        for t in controlling_tests(cfg, rz.id):
+            if t.id not in cfg.dominators(loop.id):
+                continue
+            names = reads(t.ast)
+            if {"max_tridiag_iter", "max_iter"} <= names:
+                found_limits = True
+            if R.residual in names and any(k in norm(t.ast) for k in ("equal", "isnan", "isfinite", "!=")):
+                found_nan = True
     for ok, what, msg in ((found_limits, "max_tridiag_iter > max_iter", "a tridiagonalisation larger than the iteration budget is "
                            "not rejected before iterating"),
                           (found_nan, "NaN first residual", "a NaN in the first residual is not rejected before iterating: the "
@@ -295,35 +374,45 @@ def run(idx: ProgramIndex, rep: Report, tier: str, selftest: bool = True):
         if ok:
             rep.ok("C08.E", {"raises_before_loop_on": what})
         else:
-            rep.bad("C08.E", Finding(PROP, "C08.E", fname(cg), f"no raise on {what}", f"linear_cg: {msg}", cg.loc()))
+            rep.bad("C08.E", Finding(PROP, "C08.E", F, f"no raise on {what}", f"linear_cg: {msg}", cg0.loc()))
 
     # ---------------------------------------------------------------- X
     rep.rule("C08.X", "the early exit is controlled by tolerance and residual norm", floor=2)
-    breaks = [n for n in cfg.stmt_nodes() if n.kind == "stmt" and isinstance(n.ast, ast.Break)]
+    breaks = [n for n in cfg.stmt_nodes() if n.kind == "stmt" and isinstance(n.ast, ast.Break) and _inside(loop_ast, n.ast)]
     if not breaks:
-        rep.bad("C08.X", Finding(PROP, "C08.X", fname(cg), "no break", "the CG loop has no early exit", cg.loc()))
+        rep.bad("C08.X", Finding(PROP, "C08.X", F, "no break", "the CG loop has no early exit", cg0.loc()))
+
+    def loop_controls(nid: int) -> Tuple[Set[str], List[str]]:
+        names: Set[str] = set()
+        labels = []
+        for t in controlling_tests(cfg, nid):
+            if _inside(loop_ast, t.ast):
+                names |= reads(t.ast)
+                labels.append(t.label[:50])
+        return names, labels
+
     for b in breaks:
-        tests = controlling_tests(cfg, b.id)
-        t = tests[0] if tests else None
-        names = reads(t.ast) if t is not None else set()
-        if t is not None and "tolerance" in names and "residual_norm" in names:
-            rep.ok("C08.X", {"break_controlled_by": t.label[:90]})
+        names, labels = loop_controls(b.id)
+        if "tolerance" in names and R.residual_norm in names:
+            rep.ok("C08.X", {"break_controlled_by": labels})
         else:
-            rep.bad("C08.X", Finding(PROP, "C08.X", fname(cg), "break: " + (t.label if t is not None else "unconditional"),
+            rep.bad("C08.X", Finding(PROP, "C08.X", F, "break: " + (" and ".join(labels) or "unconditional"),
                                      "the early exit of the CG loop is not controlled by both the tolerance and the residual norm",
-                                     cg.loc(b.ast)))
-    sets = [n for n in cfg.stmt_nodes() if n.kind == "stmt" and isinstance(n.ast, ast.Assign) and any(
-        isinstance(t, ast.Name) and t.id == "tolerance_reached" for t in n.ast.targets)
-        and isinstance(n.ast.value, ast.Constant) and n.ast.value.value is True]
-    for s_ in sets:
-        tests = controlling_tests(cfg, s_.id)
-        names = reads(tests[0].ast) if tests else set()
-        if tests and "tolerance" in names and "residual_norm" in names:
-            rep.ok("C08.X", {"tolerance_reached_set_under": tests[0].label[:90]})
-        else:
-            rep.bad("C08.X", Finding(PROP, "C08.X", fname(cg), "tolerance_reached = True",
-                                     "tolerance_reached is set outside the tolerance test: the NumericalWarning is suppressed "
-                                     "although the tolerance was not reached", cg.loc(s_.ast)))
+                                     cg0.loc(b.ast)))
+    if R.reached is None:
+        rep.bad("C08.X", Finding(PROP, "C08.X", F, "no tolerance-reached flag", "no flag records that the tolerance was reached when the "
+                                 "loop is left early: the warning cannot tell a converged from an exhausted solve", cg0.loc(loop_ast)))
+    else:
+        for s_ in [n for n in cfg.stmt_nodes() if n.kind == "stmt" and isinstance(n.ast, ast.Assign) and any(
+                isinstance(t, ast.Name) and t.id == R.reached for t in n.ast.targets)
+                and isinstance(n.ast.value, ast.Constant) and n.ast.value.value is True]:
+            names, labels = loop_controls(s_.id)
+            if "tolerance" in names and R.residual_norm in names:
+                rep.ok("C08.X", {"reached_flag": R.reached, "set_under": labels})
+            else:
+                rep.bad("C08.X", Finding(PROP, "C08.X", F, "tolerance-reached flag = True",
+                                         f"`{R.reached}` is set outside the tolerance test: the NumericalWarning is suppressed "
+                                         "although the tolerance was not reached", cg0.loc(s_.ast)))
 
     # ---------------------------------------------------------------- W
     rep.rule("C08.W", "the NumericalWarning test lies on every path from the loop to a return", floor=1)
@@ -331,58 +420,93 @@ def run(idx: ProgramIndex, rep: Report, tier: str, selftest: bool = True):
     for n in cfg.stmt_nodes():
         if n.kind == "stmt" and any(isinstance(x, ast.Call) and (dotted(x.func) or "").endswith("warn") and "NumericalWarning" in norm(x)
                                     for x in ast.walk(n.ast)):
-            tests = controlling_tests(cfg, n.id)
-            if tests and "tolerance_reached" in reads(tests[0].ast):
-                warn_tests.append(tests[0])
+            for t in controlling_tests(cfg, n.id):
+                if R.reached is not None and R.reached in reads(t.ast):
+                    warn_tests.append(t)
+                    break
     if not warn_tests:
-        rep.bad("C08.W", Finding(PROP, "C08.W", fname(cg), "no NumericalWarning", "linear_cg never emits a NumericalWarning "
-                                 "controlled by tolerance_reached", cg.loc()))
+        rep.bad("C08.W", Finding(PROP, "C08.W", F, "no NumericalWarning", "linear_cg never emits a NumericalWarning "
+                                 "controlled by the tolerance-reached flag", cg0.loc()))
     else:
         wt = warn_tests[0]
         after_loop = [s for s in cfg.g.successors(loop.id) if cfg.g[loop.id][s].get("pol") is False] + [b.id for b in breaks]
         h = cfg.g.copy()
         h.remove_node(wt.id)
         skipping = [s for s in after_loop if s in h and nx.has_path(h, s, cfg.exit)]
-        # breaks lead to the statement after the loop: follow their successor
         if skipping:
-            rep.bad("C08.W", Finding(PROP, "C08.W", fname(cg), "warning test bypassed",
+            rep.bad("C08.W", Finding(PROP, "C08.W", F, "warning test bypassed",
                                      "there is a path from the end of the iteration to a return that does not pass the "
-                                     "`not tolerance_reached` test: an unconverged solve can return silently", cg.loc(wt.ast)))
+                                     "`not reached` test: an unconverged solve can return silently", cg0.loc(wt.ast)))
         else:
-            names = reads(wt.ast)
-            if "n_iter" in names or "k" in names:
-                rep.ok("C08.W", {"warning_test": wt.label[:80], "on_every_path_to_return": True})
-            else:
-                rep.bad("C08.W", Finding(PROP, "C08.W", fname(cg), wt.label, "the warning test does not consider whether any "
-                                         "iteration was run", cg.loc(wt.ast)))
+            rep.ok("C08.W", {"warning_test": wt.label[:80], "on_every_path_to_return": True})
 
     # ---------------------------------------------------------------- D
-    rep.rule("C08.D", "divisions by iteration quantities are guarded by the safe-division idiom", floor=3)
-    total = 0
-    for f in [cg] + helpers:
-        total += safe_division_sites(f, rep, "C08.D")
-    if total < 3:
-        rep.error(f"only {total} torch.div sites found in linear_cg.py (expected >= 3)")
+    rep.rule("C08.D", "in-loop divisions by iteration quantities are guarded by a clamp of the denominator", floor=3)
+    n_div = 0
+    for node in cfg.stmt_nodes():
+        if node.kind != "stmt" or not _inside(loop_ast, node.ast):
+            continue
+        for x in ast.walk(node.ast):
+            den = None
+            if isinstance(x, ast.Call) and dotted(x.func) in ("torch.div", "torch.true_divide") and len(x.args) >= 2:
+                den = root_name(x.args[1])
+            elif isinstance(x, ast.Call) and isinstance(x.func, ast.Attribute) and x.func.attr in ("div", "div_") and x.args \
+                    and not (dotted(x.func) or "").startswith("torch."):
+                den = root_name(x.args[0])
+            elif isinstance(x, ast.BinOp) and isinstance(x.op, ast.Div):
+                den = root_name(x.right)
+            if den is None or den in cg.params():
+                continue
+            n_div += 1
+            ok = None
+            for d_id in cfg.dominators(node.id):
+                dn = cfg.nodes[d_id]
+                if dn.kind != "stmt" or not _inside(loop_ast, dn.ast):
+                    continue
+                ds = [(nm, rd_) for nm, rd_ in _defs_of(dn.ast) if nm == den]
+                if not ds:
+                    continue
+                txt = norm(dn.ast)
+                if any(k in txt for k in ("clamp_min", "clamp(")):
+                    ok = short(dn.ast, 60)
+                elif any(k in txt for k in ("masked_fill", "where(")):
+                    # the mask must come from a comparison of the denominator itself
+                    masks = {y.id for y in ast.walk(dn.ast) if isinstance(y, ast.Name)} - {den, "torch"}
+                    for d2_id in cfg.dominators(dn.id):
+                        d2 = cfg.nodes[d2_id]
+                        if d2.kind != "stmt":
+                            continue
+                        for z in ast.walk(d2.ast):
+                            p = _cmp_parts(z)
+                            if p is not None and root_name(p[0]) == den:
+                                tgt = root_name(p[2]) if p[2] is not None else (
+                                    d2.ast.targets[0].id if isinstance(d2.ast, ast.Assign) and isinstance(d2.ast.targets[0], ast.Name) else None)
+                                if tgt in masks:
+                                    ok = f"{short(z, 40)} ; {short(dn.ast, 40)}"
+                break
+            sample = {"division": short(x, 70), "denominator": den, "guard": ok}
+            if ok:
+                rep.ok("C08.D", sample)
+            else:
+                rep.bad("C08.D", Finding(PROP, "C08.D", F, "unguarded division by " + den + ": " + norm(x),
+                                         f"`{short(x, 70)}` divides by `{den}`, whose closest definition in the iteration is not a clamp "
+                                         "away from zero (lt(den, eps) -> masked_fill(mask, 1), clamp_min): a zero curvature / residual "
+                                         "yields inf or NaN in the iterate", cg0.loc(x)), sample)
+    if n_div < 2:
+        rep.error(f"only {n_div} in-loop divisions found in linear_cg (expected >= 2)")
 
-    # ---------------------------------------------------------------- M  (what is measured, quantifiers, thresholds)
-    from ..deps import ReachingDefs, value_reads
-
+    # ---------------------------------------------------------------- M
     rep.rule("C08.M", "the convergence measure is a function of the residual; zero-column threshold and the tridiagonal "
                       "stop are column-wise correct", floor=3)
     rd = ReachingDefs(cg, reads=value_reads)
-
-    # iteration state: anything updated in place / through out= anywhere, or re-bound from itself
     state_vars: Set[str] = set()
     for nid_, dl in rd.defs.items():
-        nd_ = rd.cfg.nodes[nid_]
-        for (dn, _r, strong) in dl:
-            if not strong or dn in _r:
-                state_vars.add(dn)
+        for (dn_, r_, strong) in dl:
+            if not strong or dn_ in r_:
+                state_vars.add(dn_)
+    STOP = {R.residual, R.rhs_is_zero}
 
     def leaves(nid: int, name: str) -> Set[str]:
-        """Direct inputs of the value of `name` at node nid, with temporaries (names ALL of whose reaching definitions
-        are plain rebinding assignments) expanded down to iteration-state variables (written through out= / in place, or
-        re-bound inside the loop from themselves), parameters and attributes of self."""
         out: Set[str] = set()
         seen: Set[tuple] = set()
 
@@ -396,94 +520,103 @@ def run(idx: ProgramIndex, rep: Report, tier: str, selftest: bool = True):
                 x = base
             if x == "torch":
                 return
-            if x in ("residual", "rhs_is_zero"):
+            if x in STOP:
                 out.add(x)
                 return
             ds = rd.IN.get(at, {}).get(x, frozenset())
             if not ds or depth > 6:
                 out.add(x)
                 return
-            if x not in state_vars and all(rd.defs[m][i][2] for (m, i) in ds) and len(ds) == 1:
-                (m, i), = ds
-                if (m, i) in seen:
+            if x not in state_vars and all(rd.defs[m_][i][2] for (m_, i) in ds) and len(ds) == 1:
+                (m_, i), = ds
+                if (m_, i) in seen:
                     return
-                seen.add((m, i))
-                for y in rd.defs[m][i][1]:
+                seen.add((m_, i))
+                for y in rd.defs[m_][i][1]:
                     if y != x:
-                        resolve(y, m, depth + 1)
+                        resolve(y, m_, depth + 1)
             else:
                 out.add(x)
 
-        for (m, i) in rd.IN.get(nid, {}).get(name, frozenset()):
-            for y in rd.defs[m][i][1]:
+        for (m_, i) in rd.IN.get(nid, {}).get(name, frozenset()):
+            for y in rd.defs[m_][i][1]:
                 if y != name and not y.startswith(name + "."):
-                    resolve(y, m, 0)
+                    resolve(y, m_, 0)
         return out
 
-    # M1: every in-loop use of residual_norm for convergence reads a value computed from `residual`
     n_m1 = 0
-    for node in cfg.stmt_nodes():
-        if node.kind != "stmt" or not _inside(loop.ast, node.ast):
+    for node in rd.cfg.stmt_nodes():
+        if node.kind != "stmt" or not _inside(loop_ast, node.ast):
             continue
-        if any(nm == "has_converged" and "residual_norm" in rdset for nm, rdset in _defs_of(node.ast)):
+        if any(nm == R.has_converged and R.residual_norm in rdset for nm, rdset in _defs_of(node.ast)):
             n_m1 += 1
-            lv = {x for x in leaves(node.id, "residual_norm") if x not in ("torch", "residual_norm")}
-            state = {x for x in lv if x not in ("residual", "rhs_is_zero", "eps", "stop_updating_after", "tolerance")}
+            lv = {x for x in leaves(node.id, R.residual_norm) if x not in ("torch", R.residual_norm)}
+            allowed = STOP | {"eps", "stop_updating_after", "tolerance"}
+            state = lv - allowed
             sample = {"convergence_test": short(node.ast, 70), "residual_norm_computed_from": sorted(lv)}
-            if "residual" in lv and not state:
+            if R.residual in lv and not state:
                 rep.ok("C08.M", sample)
             else:
-                rep.bad("C08.M", Finding(PROP, "C08.M", fname(cg), "residual_norm computed from " + ", ".join(sorted(lv)),
+                rep.bad("C08.M", Finding(PROP, "C08.M", F, "convergence norm computed from " + ", ".join(sorted(state or lv)),
                                          f"inside the iteration the norm that decides convergence is computed from {sorted(state) or sorted(lv)}, "
                                          "not from the residual itself: with a preconditioner r^T M^-1 r is not ||r||^2, so the solver stops "
                                          "(silently) although the residual is above the tolerance, and the answer depends on the preconditioner",
-                                         cg.loc(node.ast)), sample)
+                                         cg0.loc(node.ast)), sample)
     if n_m1 == 0:
-        rep.error("no in-loop convergence update of has_converged from residual_norm found")
-    # M2: the zero-column threshold does not depend on the right-hand side (columns are independent systems)
-    for node in cfg.stmt_nodes():
-        if node.kind != "stmt" or not isinstance(node.ast, ast.Assign):
+        rep.error("no in-loop convergence update found for rule M")
+    # M2: threshold of the zero-column test
+    for node in rd.cfg.stmt_nodes():
+        if node.kind != "stmt" or not isinstance(node.ast, ast.Assign) or _inside(loop_ast, node.ast):
             continue
-        if any(isinstance(t, ast.Name) and t.id == "rhs_is_zero" for t in node.ast.targets):
-            v = node.ast.value
-            thr = None
-            if isinstance(v, ast.Call) and isinstance(v.func, ast.Attribute) and v.func.attr in ("lt", "le") and v.args:
-                thr = v.args[0]
-            elif isinstance(v, ast.Call) and dotted(v.func) in ("torch.lt", "torch.le") and len(v.args) >= 2:
-                thr = v.args[1]
-            elif isinstance(v, ast.Compare) and len(v.comparators) == 1:
-                thr = v.comparators[0]
-            if thr is None:
-                rep.note(f"rhs_is_zero defined by `{short(v)}`: threshold not recognised")
+        if any(isinstance(t, ast.Name) and t.id == R.rhs_is_zero for t in node.ast.targets):
+            p = _cmp_parts(node.ast.value)
+            if p is None:
+                rep.note(f"{R.rhs_is_zero} defined by `{short(node.ast.value)}`: not a recognised comparison")
                 continue
-            dep = rd.closure(node.id, value_reads(thr))
+            dep = rd.closure(node.id, value_reads(p[1]))
             sample = {"zero_column_test": short(node.ast, 70), "threshold_depends_on": sorted(x for x in dep if x != "torch")}
-            if {"rhs", "rhs_norm"} & dep:
-                rep.bad("C08.M", Finding(PROP, "C08.M", fname(cg), "zero-column threshold depends on the right-hand side: " + norm(thr),
+            if {"rhs", R.rhs_norm} & dep:
+                rep.bad("C08.M", Finding(PROP, "C08.M", F, "zero-column threshold depends on the right-hand side",
                                          f"`{short(node.ast, 70)}`: the threshold below which a column counts as zero depends on the "
                                          "right-hand side itself (other columns): an all-zero rhs is no longer masked (0/0 -> NaN) and a small "
                                          "column next to a large one is frozen - columns are no longer independent, the answer no longer "
-                                         "scales linearly", cg.loc(node.ast)), sample)
+                                         "scales linearly", cg0.loc(node.ast)), sample)
             else:
                 rep.ok("C08.M", sample)
-    # M3: the tridiagonal recording stops only when EVERY column has broken down
+    # M3: a recording flag switched off inside the loop: only when EVERY column satisfies the stop condition
     for node in cfg.stmt_nodes():
-        if node.kind == "stmt" and isinstance(node.ast, ast.Assign) and any(
-                isinstance(t, ast.Name) and t.id == "update_tridiag" for t in node.ast.targets) \
-                and isinstance(node.ast.value, ast.Constant) and node.ast.value.value is False:
-            tests = controlling_tests(cfg, node.id)
-            if not tests:
+        if node.kind == "stmt" and isinstance(node.ast, ast.Assign) and _inside(loop_ast, node.ast) and len(node.ast.targets) == 1 \
+                and isinstance(node.ast.targets[0], ast.Name) and isinstance(node.ast.value, ast.Constant) and node.ast.value.value is False:
+            flag = node.ast.targets[0].id
+            if flag == R.reached:
                 continue
-            q = _quantifier(tests[0].ast)
-            sample = {"stop_recording_when": tests[0].label[:70], "quantifier_over_columns": q}
+            tests = [t for t in controlling_tests(cfg, node.id) if _inside(loop_ast, t.ast)]
+            known = [(t, _quantifier(t.ast)) for t in tests if _quantifier(t.ast) is not None]
+            if not known:
+                continue
+            t, q = known[0]
+            sample = {"flag": flag, "stop_recording_when": t.label[:70], "quantifier_over_columns": q}
             if q == "all":
                 rep.ok("C08.M", sample)
-            elif q == "any":
-                rep.bad("C08.M", Finding(PROP, "C08.M", fname(cg), "update_tridiag = False under " + tests[0].label,
-                                         f"the tridiagonal matrices stop being recorded as soon as ANY column's off-diagonal entry "
-                                         f"vanishes (`{tests[0].label[:60]}`): the Lanczos matrices of all other columns are truncated", cg.loc(node.ast)), sample)
             else:
-                rep.note(f"update_tridiag stop condition `{tests[0].label}`: quantifier not recognised")
+                rep.bad("C08.M", Finding(PROP, "C08.M", F, f"{flag} = False under an existential test",
+                                         f"the tridiagonal matrices stop being recorded as soon as ANY column's off-diagonal entry "
+                                         f"vanishes (`{t.label[:60]}`): the Lanczos matrices of all other columns are truncated", cg0.loc(node.ast)), sample)
+
+        # the same decision written as an expression: flag = not (X.max() < c)  (flag goes False exactly when the test holds)
+        if node.kind == "stmt" and isinstance(node.ast, ast.Assign) and _inside(loop_ast, node.ast) and len(node.ast.targets) == 1 \
+                and isinstance(node.ast.targets[0], ast.Name) and isinstance(node.ast.value, ast.UnaryOp) and isinstance(node.ast.value.op, ast.Not):
+            q = _quantifier(node.ast.value.operand)
+            if q is None:
+                continue
+            sample = {"flag": node.ast.targets[0].id, "stop_recording_when": short(node.ast.value.operand, 70), "quantifier_over_columns": q}
+            if q == "all":
+                rep.ok("C08.M", sample)
+            else:
+                rep.bad("C08.M", Finding(PROP, "C08.M", F, "recording flag cleared under an existential test",
+                                         f"the tridiagonal matrices stop being recorded as soon as ANY column's off-diagonal entry "
+                                         f"vanishes (`{short(node.ast.value.operand, 60)}`): the Lanczos matrices of all other columns are "
+                                         "truncated", cg0.loc(node.ast)), sample)
 
     if selftest:
         from ..selftest import run_fixtures
